@@ -67,12 +67,12 @@ func c13(c *core.Check) {
 		}
 	})
 	agg.flush(c, map[string]string{
-		"M1-count-loop":    "header count is len(target) or a variable counted over every index/key of target with the element loop's predicate",
-		"M1-loop-bound":    "no counting loop assigns a variable of its own condition in its body",
-		"M2-write-filter":  "element loop: nothing for a miss, the element's events for a hit; field frame per requiredness",
-		"M2-read-filter":   "miss: Skip with the spec wire type; hit: exactly one element; field-level miss skips the field",
+		"M1-count-loop":         "header count is len(target) or a variable counted over every index/key of target with the element loop's predicate",
+		"M1-loop-bound":         "no counting loop assigns a variable of its own condition in its body",
+		"M2-write-filter":       "element loop: nothing for a miss, the element's events for a hit; field frame per requiredness",
+		"M2-read-filter":        "miss: Skip with the spec wire type; hit: exactly one element; field-level miss skips the field",
 		"M3-zero-only-required": "the zero-value arm exists only for required fields",
-		"M4-propagation":   "child structs receive the sub-mask bound by the innermost enclosing query",
+		"M4-propagation":        "child structs receive the sub-mask bound by the innermost enclosing query",
 	})
 	for _, k := range []string{"M1-count-loop", "M1-loop-bound", "M2-write-filter", "M2-read-filter", "M3-zero-only-required", "M4-propagation"} {
 		c.Min(k, 1)
